@@ -94,7 +94,7 @@ def run(prog, res, rule, file_prefixes, min_pairs, E=None):
     res.need(rule, min_pairs)
     res.count(rule + ".error_returning_functions", len(E))
     # the field idiom is only sound if a reader tests the field
-    for fld, reader in (("headerSize", "ZSTD_decompressContinue"), ("compressedSize", "ZSTD_findFrameCompressedSize"),
+    for fld, reader in (("headerSize", "ZSTD_decompressContinue"), ("compressedSize", "ZSTD_decompressBound"),
                         ("hufDesSize", "ZSTD_buildBlockEntropyStats")):
         if not prog.has_fn(reader):
             continue
